@@ -144,6 +144,40 @@ def cores(run, m, F, E):
             run.ob('R06.1', short(f.dem), None, und[0], loc=fn_loc(f), disc='core')
         else:
             run.ob('R06.1', short(f.dem), True, 'comparator verdict, else the sign of the size difference, for all 9 cases', disc='core')
+        # the same question with both operands at one address (a text compared with a prefix of itself, an object with its own
+        # c_str()): the common prefix is equal by construction, so the result is the sign of the size difference
+        I = Interp(m, F, E, CoreHooks(m))
+        st = State()
+        lp = I.fresh_ptr(st, 'left')
+        ls, rs = I.fresh_int(st, 64, 'lsize'), I.fresh_int(st, 64, 'rsize')
+        try:
+            outs = I.run(I.start(f, [lp, ls, lp, rs], st))
+        except Exception:
+            outs = []
+        d = ls.lin - rs.lin
+        p2, u2 = [], []
+        for o in outs:
+            if o.kind != 'ret' or not isinstance(o.val, IntV):
+                continue
+            vl = I.as_s(o.st, o.val)
+            for ds in SIGNS:
+                s3 = o.st.clone()
+                if 'cmp' in s3.rng and not sign_assume(s3, Lin.atom('cmp'), 'zero'):
+                    continue            # (a text compared with itself over the common length is equal)
+                if not sign_assume(s3, d, ds):
+                    continue
+                got = sign_of(s3, vl)
+                if got == ds:
+                    continue
+                env = s3.find_model([vl, d], (lambda w: (lambda vals: ('neg' if vals[0] < 0 else 'pos' if vals[0] > 0 else 'zero') != w))(ds))
+                if env is not None:
+                    p2.append('both operands at one address, lsize %s rsize: returns a value whose sign is not %s although the common prefix is the same '
+                              'memory; witness %s' % ({'neg': '<', 'zero': '==', 'pos': '>'}[ds], ds, own.fmt_env(dict((k, v2) for k, v2 in env.items() if isinstance(k, str)))))
+                elif got is None:
+                    u2.append('operands at one address, sizes %s: sign of the result not decided' % ds)
+        if outs:
+            run.ob('R06.1', short(f.dem), False if p2 else (None if u2 else True), p2[0] if p2 else (u2[0] if u2 else
+                   'operands at one address: the sign of the size difference'), loc=fn_loc(f), disc='core / one address')
     # maxlen forms
     pats5 = [r'^ST::buffer<(char|wchar_t|char16_t|char32_t)>::compare\((\w+) const\*, unsigned long, \2 const\*, unsigned long, unsigned long\)$',
              r'^_ST_PRIVATE::compare_ci\(char const\*, unsigned long, char const\*, unsigned long, unsigned long\)$']
